@@ -4,7 +4,7 @@
 import ast
 
 from ..facts import calls_of, walk
-from ..model import norm_stmt
+from ..model import AnalysisError, norm_stmt
 from .common import facts, parent
 from .sibling import expand_local, normal_form
 
@@ -38,37 +38,75 @@ def _row_loop(fn):
     return loops[-1] if loops else None
 
 
+def _canon(loop, expr):
+    """text of expr with single-assignment locals of the loop inlined and the loop's (index, row) variables named
+    IDX / ROW, so that two implementations can be compared whatever their locals are called"""
+    import copy
+    e = _inline(loop, expr)
+    names = {}
+    if isinstance(loop.target, ast.Tuple) and len(loop.target.elts) == 2:
+        for el, nm in zip(loop.target.elts, ("IDX", "ROW")):
+            if isinstance(el, ast.Name):
+                names[el.id] = nm
+    e = copy.deepcopy(e)
+    for n in ast.walk(e):
+        if isinstance(n, ast.Name) and n.id in names:
+            n.id = names[n.id]
+    return " ".join(ast.unparse(e).split())
+
+
+def _selection_arg(prog, cls, loop):
+    """the expression handed to _get_nhood_predictions as its `indices` parameter inside the row loop"""
+    callee = prog.cls(cls).resolve("_get_nhood_predictions")
+    if callee is None or "indices" not in callee.params:
+        return None
+    pos = callee.params.index("indices") - 1
+    for c in ast.walk(loop):
+        if isinstance(c, ast.Call) and isinstance(c.func, ast.Attribute) and c.func.attr == "_get_nhood_predictions" \
+                and ast.unparse(c.func.value) == "self":
+            for kw in c.keywords:
+                if kw.arg == "indices":
+                    return kw.value
+            if pos < len(c.args):
+                return c.args[pos]
+    return None
+
+
 def check_selection(ctx):
     prog = ctx.prog
     batch = prog.method("_NeighborsSimulator", "_calculate_distances_of_batch")
     bloop = _row_loop(batch)
     elem = None
-    if bloop is not None:
+    rets = [s for s in batch.node.body if isinstance(s, ast.Return)]
+    out_name = rets[-1].value.id if rets and isinstance(rets[-1].value, ast.Name) else None
+    if bloop is not None and out_name is not None:
         for s in ast.walk(bloop):
             if isinstance(s, ast.Assign) and isinstance(s.targets[0], ast.Subscript) and \
-                    ast.unparse(s.targets[0].value) == "distances":
+                    ast.unparse(s.targets[0].value) == out_name and \
+                    _canon(bloop, s.targets[0].slice) == "IDX":
                 elem = s.value
     if elem is None:
         ctx.undecided("R15.1", "element expression of _calculate_distances_of_batch", batch.node, batch,
-                      "no `distances[index] = ...` found", construct="def _calculate_distances_of_batch")
+                      "no `<returned list>[index] = ...` found", construct="def _calculate_distances_of_batch")
         return
-    elem_x = ast.unparse(_inline(bloop, elem))
+    elem_x = _canon(bloop, elem)
     n = 0
     for lib, sim in (("_Radius", "_RadiusSimulator"), ("_KNearest", "_KNearestSimulator")):
         fl, fs = prog.method(lib, "_predict_contexts"), prog.method(sim, "_predict_contexts")
         ctx.saw_fn(fl)
         ctx.saw_fn(fs)
         ll, ls = _row_loop(fl), _row_loop(fs)
-        el = expand_local(ll, "indices", stop=("row", "index"))
-        es = expand_local(ls, "indices", stop=("row", "index"))
+        el = _selection_arg(prog, lib, ll) if ll is not None else None
+        es = _selection_arg(prog, sim, ls) if ls is not None else None
         if el is None or es is None:
-            ctx.undecided("R15.1", "%s / %s: no `indices` expression" % (lib, sim), fs.node, fs,
-                          construct="def %s._predict_contexts" % sim)
+            ctx.undecided("R15.1", "%s / %s: no neighbour selection handed to _get_nhood_predictions" % (lib, sim),
+                          fs.node, fs, construct="def %s._predict_contexts" % sim)
             continue
-        sl, ss = ast.unparse(el), ast.unparse(es)
-        ss_sub = ss.replace("self.distances[start_index + index]", elem_x)
+        sl, ss = _canon(ll, el), _canon(ls, es)
+        cache = "self.distances[%s + IDX]" % fs.params[4] if len(fs.params) > 4 else "self.distances[start_index + IDX]"
+        ss_sub = ss.replace(cache, elem_x)
         n += 1
-        ctx.check("self.distances[start_index + index]" in ss, "R15.1",
+        ctx.check(cache in ss, "R15.1",
                   "%s reads the cached distances of its own global row (start_index + index)" % sim, ls, fs,
                   "selection expression: %s" % ss, construct="indices of %s" % sim)
         ctx.check(sl == ss_sub, "R15.1", "%s selects the same neighbours as %s" % (sim, lib), ls, fs,
@@ -90,6 +128,9 @@ def _inline(loop, expr, stop=None):
     """inline single-assignment locals of the loop body into expr (loop variables stay)"""
     import copy
     stop = set(stop) if stop is not None else loop_vars(loop)
+    if isinstance(loop, (ast.FunctionDef, ast.AsyncFunctionDef)):
+        a = loop.args
+        stop |= {x.arg for x in a.posonlyargs + a.args + a.kwonlyargs}
     for n in ast.walk(loop):
         if isinstance(n, ast.For) and n is not loop:
             stop |= loop_vars(n)
@@ -167,11 +208,22 @@ def check_lsh_pairs(ctx):
     prog = ctx.prog
     n = 0
     for lib, sim, meth in LSH_PAIRS:
-        fl, fs = prog.method(lib, meth), prog.method(sim, meth)
+        n += 1
+        fl, fs = prog.cls(lib).methods.get(meth), prog.cls(sim).methods.get(meth)
+        if fl is None or fs is None:
+            # one side was restructured away: the two implementations are no longer written alike, and nothing here
+            # can show that they still compute the same thing
+            have = fl or fs
+            if have is None:
+                raise AnalysisError("anchored methods %s.%s / %s.%s not found" % (lib, meth, sim, meth))
+            ctx.violate("R15.5", "%s.%s == %s.%s (modulo renaming)" % (lib, meth, sim, meth), have.node, have,
+                        "%s.%s no longer exists while %s.%s does: library and simulator LSH implementations have "
+                        "diverged" % ((lib, meth, sim, meth) if fl is None else (sim, meth, lib, meth)),
+                        construct="def %s.%s / def %s.%s" % (lib, meth, sim, meth))
+            continue
         ctx.saw_fn(fl)
         ctx.saw_fn(fs)
         a, b = normal_form(fl.node, RENAME), normal_form(fs.node, RENAME)
-        n += 1
         ctx.check(a == b, "R15.5", "%s.%s == %s.%s (modulo renaming)" % (lib, meth, sim, meth), fs.node, fs,
                   _first_diff(a, b), construct="def %s.%s / def %s.%s" % (lib, meth, sim, meth))
     ctx.floor("R15.5", "LSH method pairs", n, 6)
